@@ -633,9 +633,11 @@ def fmt_obligation(P, R, mp, log_dir, oid, fname, ty, kind, als, bound, skip_arm
                          "concrete writer struct; String::push_str events are the output",
              "functions_encoded": [n + " (MIR)" for n in encoded], "paths": paths}
         if problems:
-            r.update(status="inconclusive", reason=f"{len(problems)} path(s) not executable: {problems[0][0]}: {problems[0][1][:200]}",
-                     wall_s=round(time.time() - t0, 2))
-            return r
+            # the printer left the shapes the model executes (a new helper, another formatting routine ..): the example sentences of those arms decide
+            r["wall_s"] = round(time.time() - t0, 2)
+            r["vacuity_ok"] = True
+            fake = [({"arm": a, "ex": None, "pc": []}, f"{a}: not executable by the model: {w[:160]}") for a, w in problems]
+            return native_fmt(r, fake, log_dir, fname)
         live, excluded = [], {}
         for i, c in enumerate(classes):
             c["id"] = f"{oid}-{i}"
